@@ -41,6 +41,14 @@ def gen_source(rng):
         if r < 0.14:
             out.append(rng.choice(KEYWORDS))
         elif r < 0.30:
+            if rng.random() < 0.12:
+                # ordinary glyph bytes that happen to spell a UTF-8 BOM (or a
+                # prefix of one), at the start of a line
+                out.append('\n' + rng.choice(['\xef\xbb\xbfname',
+                                              '\xef\xbb\xbf',
+                                              '\xef\xbbx', '\xfe\xffy',
+                                              '\xff\xfez']))
+                continue
             base = rng.choice(['x', 'foo', '_a1', 'andy', 'end_', 'notx',
                                'for1', 'elseif2', 'iff', 'orb', 'ifelse',
                                'function_', 'ends', 'do_', 'nil0', 'e',
@@ -246,6 +254,7 @@ def generate(rng, prop, tier, index):
                                       .decode('latin-1').encode(
                                           'ascii', 'replace')),
                 'routes': ['p8file', 'p8include', 'p8include2',
+                           'p8include-tab-then-all', 'p8include-after-failed',
                            'cli-listtokens']}
     if index % 25 == 7:
         sc['src'] = {'$corpus': index // 25}
@@ -320,6 +329,8 @@ def execute_file(sc):
             version=33, code=b'#include code.p8\n')))
         w.put('a/main2.p8', refcodec.encode_p8(refcodec.make_cart(
             version=33, code=b'#include code.p8\n#include code.p8\n')))
+        w.put('a/main3.p8', refcodec.encode_p8(refcodec.make_cart(
+            version=33, code=b'#include code.p8:0\n#include code.p8\n')))
 
         def load(rel):
             try:
@@ -335,6 +346,52 @@ def execute_file(sc):
         for route in sc.get('routes', []):
             if route == 'p8file':
                 got = load('a/code.p8')
+            elif route in ('p8include-tab-then-all', 'p8include-after-failed'):
+                try:
+                    from pico8.lua import lua as _lua
+                    echoed = b''.join(_lua.Lua.from_lines(
+                        [src], version=33).to_lines())
+                except Exception:
+                    continue
+                if route == 'p8include-tab-then-all':
+                    if b'-->8' in src:
+                        continue       # keep the reference splice trivial
+                    # a two-tab cart included first by tab, then whole: the
+                    # selector of the first line must not stick to the second
+                    two = src + b'-->8\ntabtwo_marker=1\n'
+                    w.put('a/code2.p8', refcodec.encode_p8(refcodec.make_cart(
+                        version=33, code=two)))
+                    w.put('a/main3.p8', refcodec.encode_p8(refcodec.make_cart(
+                        version=33,
+                        code=b'#include code2.p8:1\n#include code2.p8\n')))
+                    try:
+                        whole = b''.join(_lua.Lua.from_lines(
+                            [two], version=33).to_lines())
+                    except Exception:
+                        continue
+                    got = load('a/main3.p8')
+                    ref = lex([b'tabtwo_marker=1\n' + whole], 'lua')
+                else:
+                    # an earlier load failed inside the very cart that is
+                    # included now (it was broken then and has been repaired)
+                    good = w.snap('a/code.p8')[2]
+                    w.put('a/code.p8', refcodec.encode_p8(refcodec.make_cart(
+                        version=33, code=b'x = "broken\n')))
+                    load('a/main.p8')
+                    w.put('a/code.p8', good)
+                    got = load('a/main.p8')
+                    ref = lex([echoed], 'lua')
+                core.bump(res['faults'], 'CHUNK')
+                if got != ref:
+                    core.violation(
+                        res, 'C07', 'C07:chunk-dependent-tokens',
+                        'C07|chunk-dependent|tokens|via ' + route,
+                        'source %r through %s: tokens differ from the '
+                        '(echoed) text lexed as one chunk: %s vs %s' % (
+                            src[:300], route, str(got)[:300], str(ref)[:300]))
+                    break
+                outcomes.append(route + ':same')
+                continue
             elif route == 'p8include2':
                 # the same cart included twice: the token list is the one of
                 # the (echoed) text twice over
